@@ -410,6 +410,19 @@ class Engine:
             return self.class_term(v.info if v.info is not None else v.ext)
         if isinstance(v, PSeq):
             return Val.tup(v.seq)
+        if isinstance(v, FuncV) and "BufFn" in self.reg.shapes and not self.spec_mode:
+            cap = captured_name(v)
+            if cap is not None and v.env is not None and cap in v.env:
+                # `lambda: xs` / `def f(): return xs`: a closure object whose only behaviour is to return the captured
+                # object; represented as a heap object with ghost field `buf` (the captured variable is never rebound)
+                key = self._closure_key(v)
+                t = self.closures.get(key)
+                if t is None:
+                    obj = self.alloc("function", "BufFn")
+                    self.set_field(self.refof(obj), "buf", self.to_term(v.env[cap], node))
+                    t = (obj.term, v)
+                    self.closures[key] = t
+                return t[0]
         if isinstance(v, (FuncV, BoundV, MethodCallerV, BuiltinV)):
             key = self._closure_key(v)
             t = self.closures.get(key)
@@ -629,6 +642,20 @@ class Engine:
         if isinstance(v, TupV):
             return z3.BoolVal(name == "tuple")
         self.unsupported(node, "isinstance of %r" % (v,))
+
+
+def captured_name(f):
+    """name returned by a zero-argument closure of the form `lambda: x` / `def f(): return x`, else None"""
+    n = f.node
+    a = n.args
+    if a.args or a.vararg or a.kwarg or a.kwonlyargs or a.posonlyargs:
+        return None
+    if isinstance(n, ast.Lambda):
+        return n.body.id if isinstance(n.body, ast.Name) else None
+    body = [st for st in n.body if not (isinstance(st, ast.Expr) and isinstance(st.value, ast.Constant))]
+    if len(body) == 1 and isinstance(body[0], ast.Return) and isinstance(body[0].value, ast.Name):
+        return body[0].value.id
+    return None
 
 
 def has_quantifier(t):
